@@ -35,6 +35,8 @@ func (g *G) material(alg string) string {
 			n += g.r.Intn(40)
 		}
 		m = hx.H(g.r.Bytes(n))
+	case "ML":
+		m = hx.H(g.r.Bytes(32))
 	case "ES":
 		_, _, n := curveOf(alg)
 		b := g.r.Bytes(n)
@@ -84,7 +86,9 @@ func (g *G) keyID() uint32 {
 }
 
 // keyset: 1..3 keys of one family, distinct ids, one enabled primary.
-func (g *G) keyset(mac bool) []kd {
+func (g *G) keyset(mac bool) []kd { return g.keysetOpt(mac, true) }
+
+func (g *G) keysetOpt(mac, allowML bool) []kd {
 	n := 1 + g.r.Intn(3)
 	var ks []kd
 	used := map[uint32]bool{}
@@ -95,6 +99,9 @@ func (g *G) keyset(mac bool) []kd {
 		}
 		used[id] = true
 		alg := hx.PickS(g.r, sigAlgs)
+		if allowML && g.r.Chance(4) { // large keys and signatures: a small share
+			alg = hx.PickS(g.r, []string{"ML-DSA-44", "ML-DSA-44", "ML-DSA-65", "ML-DSA-87"})
+		}
 		if mac {
 			alg = hx.PickS(g.r, macAlgs)
 		}
@@ -335,7 +342,7 @@ func (g *G) customClaims() string {
 func (g *G) honest(kind string) string {
 	r := g.r
 	mac := r.Chance(35) && kind == "V"
-	ks := g.keyset(mac)
+	ks := g.keysetOpt(mac, kind == "V") // JWK has no ML-DSA mapping
 	c, o, what := g.claimsAndValidator()
 	var signer kd
 	who := "primary"
@@ -518,9 +525,13 @@ func (g *G) headerCase() string {
 	case 13: // HS-vs-RS confusion: header says HS256, MAC keyed with the verifier's public material
 		if !mac {
 			conf := kd{Alg: "HS256", Mat: hx.H([]byte(signer.Mat + "0123456789abcdef0123456789abcdef"))}
-			if signer.Alg[:2] == "ES" {
+			switch signer.Alg[:2] {
+			case "ES":
 				conf.Mat = hx.H(ecPoint(signer))
-			} else {
+			case "ML":
+				pk, _ := mlKeys(signer)
+				conf.Mat = hx.H(pk.Encode())
+			default:
 				conf.Mat = hx.H(rsaKey(signer.Mat).n)
 			}
 			h.alg = jq("HS256")
@@ -816,6 +827,9 @@ func (g *G) encodeCase() string {
 	r := g.r
 	mac := r.Chance(40)
 	alg := hx.PickS(r, sigAlgs)
+	if r.Chance(4) {
+		alg = hx.PickS(r, []string{"ML-DSA-44", "ML-DSA-65", "ML-DSA-87"})
+	}
 	if mac {
 		alg = hx.PickS(r, macAlgs)
 	}
